@@ -34,7 +34,7 @@ Your task: produce TWO independent changes (A and B; different mechanisms, prefe
   4. needs something SPECIFIC to manifest -- a particular enumeration order or interleaving, a fault at a particular point, a multi-step sequence, an unusual-but-legal input (particular graph shape, sizes, names, option order, config contents), or two cooperating edits that each look fine alone. It must NOT be a change that any ordinary run on an ordinary repository exposes at once (e.g. do not simply make a count always wrong), and it should look like a plausible refactoring/optimisation mistake a real developer could make, small (a few lines).
   5. must not edit any *_test.go file, go.mod or go.sum.
 
-For each change also write a demonstration: a standalone Go test file or a small shell/Go program that FAILS (non-zero exit) with the change applied and PASSES on the pristine tree. The demonstration should build whatever repository/input it needs itself (with the real `git` in a temp dir, or by calling the Go packages directly) and should state in a comment what it needs in order to manifest. Verify both directions yourself (git stash / git apply -R), and show the commands you ran.
+For each change also write a demonstration: a standalone Go test file or a small shell/Go program that FAILS (non-zero exit) with the change applied and PASSES on the pristine tree. The demonstration should build whatever repository/input it needs itself (with the real `git` in a temp dir, or by calling the Go packages directly) and should state in a comment what it needs in order to manifest. Verify both directions yourself with `git diff > file; git checkout -- .; git apply file` / `git apply -R file` -- do NOT use `git stash` (the stash is shared with other worktrees of this repository and other people use them concurrently) -- and show the commands you ran.
 
 Deliver, inside {wt}-out/ (create it):
   A.patch.diff, B.patch.diff  -- `git diff` output against the pristine tree (each applies alone with `git apply` to a pristine tree)
